@@ -1,4 +1,6 @@
 import Op2Proofs.Huff.M
+import Op2Proofs.Huff.Agree
+import Op2Proofs.Huff.RefEq
 /-!
 # C15 — the adaptive Huffman tree stays a valid code on every history
 -/
@@ -160,6 +162,112 @@ theorem C15_symbol_on_one_leaf {t : TF} (w : WF t) (code : Nat) (hcode : code < 
 theorem C15_all_reachable {t : TF} (w : WF t) (j : Nat) (hj : j < t.n) :
     walk t t.root (up t j t.n).reverse = j :=
   walk_up w.st t.n j hj (by unfold root; omega)
+
+/-! ## the shape equals that of the independent (LZHUF-style) reference update, on every history -/
+
+/-- one update: the reference and the modelled update produce the same tables -/
+theorem C15_ref {t : TF} (w : WF t) {code : Nat} (hcode : code < t.T) : Ref.update t code = t.update code :=
+  ref_update_eq w hcode
+
+/-- a history run through the reference update (same refusals) -/
+def runRef (t : TF) : List Nat → Except Err TF
+  | [] => .ok t
+  | c :: cs =>
+    if c ≥ t.T then .error .refused
+    else if t.cnt t.root ≥ maxCount then .error .refused
+    else runRef (Ref.update t c) cs
+
+/-- every history: the reference run and the modelled run end in the same tree (or are both refused) -/
+theorem C15_ref_history (T : Nat) (hT : 2 ≤ T) (codes : List Nat) :
+    runRef (init T) codes = runChecked (init T) codes := by
+  suffices ∀ (codes : List Nat) (s : TF), WF s → runRef s codes = runChecked s codes from this codes _ (init_wf hT)
+  intro codes
+  induction codes with
+  | nil => intro s _; rfl
+  | cons c cs ih =>
+    intro s w
+    simp only [runRef, runChecked, updateChecked]
+    by_cases h1 : c ≥ s.T
+    · rw [if_pos h1, if_pos h1]
+    · rw [if_neg h1, if_neg h1]
+      by_cases h2 : s.cnt s.root ≥ maxCount
+      · rw [if_pos h2, if_pos h2]
+      · rw [if_neg h2, if_neg h2]
+        rw [C15_ref w (by omega)]
+        exact ih _ (update_wf w (by omega))
+
+/-! ## the executable array tree (what the drivers run, and the shape of the C++ object) refines all of the above -/
+
+def runCheckedA (a : TA) : List Nat → Except Err TA
+  | [] => .ok a
+  | c :: cs => match a.updateChecked c with
+    | .ok a' => runCheckedA a' cs
+    | .error e => .error e
+
+/-- **memory safety of the update**: on a well-formed tree whose tables have the constructor's sizes, every table
+    index `UpdateCodeCount` reads or writes lies inside the tables — the bounds-checked array run equals the
+    function-level run, sizes are kept -/
+theorem C15_array_update_in_bounds (a : TA) (s : a.Sized) (w : WF a.view) (code : Nat) (hcode : code < a.T) :
+    (a.update code).view = a.view.update code ∧ (a.update code).Sized ∧ (a.update code).T = a.T :=
+  TA.update_view a s w code hcode
+
+/-- every tree the array implementation can reach from the constructor is well formed, keeps its table sizes, and
+    is the frozen form of the function-level tree of the same history -/
+theorem C15_array_reachable (T : Nat) (hT : 2 ≤ T) (codes : List Nat) (a : TA)
+    (h : runCheckedA (TA.init T) codes = .ok a) :
+    a.Sized ∧ WF a.view ∧ a.T = T ∧ a.view.cnt a.view.root = T + codes.length := by
+  suffices ∀ (codes : List Nat) (s : TA) (k : Nat), s.Sized → WF s.view → s.T = T → s.view.cnt s.view.root = T + k →
+      runCheckedA s codes = .ok a → a.Sized ∧ WF a.view ∧ a.T = T ∧ a.view.cnt a.view.root = T + k + codes.length from by
+    obtain ⟨w0, s0, t0⟩ := TA.init_wf T hT
+    have := this codes (TA.init T) 0 s0 w0 t0 (by rw [TA.init_root_cnt T hT]; rfl) h
+    simpa using this
+  intro codes
+  induction codes with
+  | nil =>
+    intro s k sz w hs hk h
+    simp only [runCheckedA, Except.ok.injEq] at h; subst h; exact ⟨sz, w, hs, by simpa using hk⟩
+  | cons c cs ih =>
+    intro s k sz w hs hk h
+    simp only [runCheckedA] at h
+    have hv := TA.updateChecked_view s sz w c
+    split at h
+    · rename_i s' e
+      rw [e] at hv
+      obtain ⟨hv1, hv2⟩ := hv
+      obtain ⟨w', hT', hc', _, _⟩ := C15_wf_step w hv1
+      have := ih s' (k + 1) hv2 w' (by have : s'.view.T = s.view.T := hT'; exact this.trans hs) (by rw [hc', hk]; omega) h
+      simp only [List.length_cons]
+      refine ⟨this.1, this.2.1, this.2.2.1, ?_⟩
+      rw [this.2.2.2]; omega
+    · simp at h
+
+/-- an out-of-range node index is refused by every query, and a query never changes the tree (it returns no tree) -/
+theorem C15_node_refused (a : TA) (node : Nat) (h : node ≥ a.n) (bit : Nat) :
+    a.child node bit = .error .bounds ∧ a.isLeaf node = .error .bounds ∧ a.nodeData node = .error .bounds := by
+  unfold TA.child TA.isLeaf TA.nodeData
+  rw [if_pos h, if_pos h, if_pos h]; exact ⟨rfl, rfl, rfl⟩
+
+/-- in range the queries read the tables -/
+theorem C15_node_queries (a : TA) (node : Nat) (h : node < a.n) (bit : Nat) :
+    a.child node bit = .ok (a.view.link node + bit) ∧ a.isLeaf node = .ok (TF.isLeaf a.view node) ∧
+    a.nodeData node = .ok (TF.nodeData a.view node) := by
+  unfold TA.child TA.isLeaf TA.nodeData
+  have : ¬ node ≥ a.n := by omega
+  rw [if_neg this, if_neg this, if_neg this]; exact ⟨rfl, rfl, rfl⟩
+
+/-- non-vacuity: a concrete history on the array tree is accepted (so the hypotheses above are satisfiable) -/
+theorem C15_first_update_accepted (T : Nat) (hT : 2 ≤ T) (hT2 : T < maxCount) (c : Nat) (hc : c < T) :
+    ∃ a, runCheckedA (TA.init T) [c] = .ok a := by
+  have hr : ¬ ((TA.init T).cnt.getD (TA.init T).root 0 ≥ maxCount) := by
+    have := TA.init_root_cnt T hT
+    rw [TA.view_cnt, TA.view_root] at this
+    rw [this]; omega
+  have hc' : ¬ (c ≥ (TA.init T).T) := by show ¬ (c ≥ T); omega
+  refine ⟨(TA.init T).update c, ?_⟩
+  simp only [runCheckedA, TA.updateChecked]
+  rw [if_neg hc', if_neg hr]
+example : ∃ a, runCheckedA (TA.init 314) [5] = .ok a :=
+  C15_first_update_accepted 314 (by omega) (by decide) 5 (by omega)
 
 /-- non-vacuity: the 314-symbol tree of the format is covered -/
 example : (2 : Nat) ≤ 314 ∧ 314 ≤ maxCount := by decide
